@@ -52,6 +52,10 @@ func c43OpFrame(op c43Op) []byte {
 		b = verifkit.RefVarInt(0)
 	case "ping", "shortping":
 		b = append(verifkit.RefVarInt(1), op.Body...)
+	case "longping":
+		// a ping frame that is not in canonical form: trailing bytes behind the
+		// 8 byte id and/or a non-minimal packet id VarInt (0x81 0x00 == 1)
+		b = append(c43LongPingID(op), op.Body...)
 	case "junkrequest":
 		b = append(verifkit.RefVarInt(0), op.Body...)
 	case "unknown":
@@ -204,6 +208,15 @@ func c43RunInner(c c43Case) (res verifkit.Result) {
 			closed = true
 			deviates = true
 			labels = append(labels, "short-ping")
+		case "longping":
+			// Whether a non-canonical ping counts as "the ping" is not stated; if
+			// the proxy answers it at all, the answer must be the byte-identical
+			// payload (an echo, not a re-encoding), and the connection closes.
+			payload := append(c43LongPingID(op), op.Body...)
+			expects = append(expects, c43Expect{what: "echo-or-nothing", echo: payload})
+			closed = true
+			deviates = true
+			labels = append(labels, "non-canonical-ping")
 		case "unknown":
 			closed = true
 			deviates = true
@@ -412,9 +425,30 @@ func c43GenPingBody(t *rapid.T) []byte {
 	).Draw(t, "pingBody")
 }
 
+// c43LongPingID is the packet id VarInt of a "longping": op.ID != 0 selects the
+// non-minimal two-byte encoding of 1.
+func c43LongPingID(op c43Op) []byte {
+	if op.ID != 0 {
+		return []byte{0x81, 0x00}
+	}
+	return verifkit.RefVarInt(1)
+}
+
 func c43GenOp(t *rapid.T) c43Op {
-	kind := rapid.SampledFrom([]string{"request", "request", "request", "ping", "ping", "ping", "unknown", "shortping", "junkrequest"}).Draw(t, "kind")
+	kind := rapid.SampledFrom([]string{"request", "request", "request", "ping", "ping", "ping", "unknown", "shortping", "junkrequest", "longping"}).Draw(t, "kind")
 	switch kind {
+	case "longping":
+		op := c43Op{Kind: kind, Body: c43GenPingBody(t)}
+		switch rapid.IntRange(0, 2).Draw(t, "noncanonical") {
+		case 0:
+			op.Body = append(op.Body, rapid.SliceOfN(rapid.Byte(), 1, 8).Draw(t, "trailing")...)
+		case 1:
+			op.ID = 1
+		default:
+			op.ID = 1
+			op.Body = append(op.Body, rapid.SliceOfN(rapid.Byte(), 1, 8).Draw(t, "trailing")...)
+		}
+		return op
 	case "request":
 		return c43Op{Kind: kind}
 	case "ping":
